@@ -1777,3 +1777,130 @@ pub fn huge_const_case(r: &mut Rng) -> (String, Doc) {
     }
   }
 }
+
+// ------------------------------------------------------------------------------------------------
+// legitimately recursive (well-founded) schemas with data that actually recurses: what the validators'
+// visited-rule / active-group guards must let through and must terminate on
+
+fn t(s: &str) -> Doc {
+  Doc::Text(s.to_string())
+}
+
+/// (schema, document) for recursion shape `shape` at depth `d`; `bad` puts a value of the wrong type at the
+/// deepest level, so that every alternative on the way down is tried and rejected.
+pub fn recursive_case(r: &mut Rng) -> (String, Doc, &'static str) {
+  let d = *r.pick(&[1usize, 2, 3, 4, 6, 8, 12, 16, 24, 32, 48, 63]);
+  let bad = r.chance(1, 3);
+  let leaf = |bad: bool| if bad { Doc::Text("not-an-int".into()) } else { Doc::Int(7) };
+  match r.below(12) {
+    0 => {
+      let mut x = leaf(bad);
+      for _ in 0..d {
+        x = Doc::Array(vec![Doc::Int(1), x]);
+      }
+      ("root = [* root] / int\n".into(), x, "array")
+    }
+    1 => {
+      let mut x = Doc::Map(vec![(t("v"), leaf(bad))]);
+      for _ in 0..d {
+        x = Doc::Map(vec![(t("next"), x), (t("v"), Doc::Int(1))]);
+      }
+      ("root = { ? next: root, v: int }\n".into(), x, "map-value")
+    }
+    2 => {
+      let mut x = leaf(bad);
+      for i in 0..d {
+        x = Doc::Map(vec![(Doc::Text(format!("k{}", i % 3)), x), (t("z"), Doc::Int(0))]);
+      }
+      ("root = { * tstr => root } / int\n".into(), x, "table")
+    }
+    3 => {
+      let mut x = Doc::Array(vec![leaf(bad), Doc::Array(vec![])]);
+      for _ in 0..d {
+        x = Doc::Array(vec![Doc::Int(1), Doc::Array(vec![x.clone(), Doc::Array(vec![Doc::Int(2), Doc::Array(vec![])])])]);
+        if let Doc::Array(a) = &x {
+          if a.len() > 2 {
+            break;
+          }
+        }
+      }
+      ("tree = [val: int, kids: [* tree]]\n".into(), x, "named-array-tree")
+    }
+    4 => {
+      // binary tree: 2^depth nodes, keep it small
+      fn node(depth: usize, bad: bool) -> Doc {
+        if depth == 0 {
+          return Doc::Map(vec![(t("v"), if bad { t("x") } else { Doc::Int(0) })]);
+        }
+        Doc::Map(vec![(t("v"), Doc::Int(depth as i128)), (t("l"), node(depth - 1, false)), (t("r"), node(depth - 1, bad))])
+      }
+      ("root = node\nnode = { v: int, ? l: node, ? r: node }\n".into(), node(d.min(7), bad), "binary-tree")
+    }
+    5 => {
+      let mut x = Doc::Array(vec![Doc::Int(1)]);
+      if bad {
+        x = Doc::Array(vec![t("x")]);
+      }
+      for _ in 0..d {
+        x = Doc::Array(vec![Doc::Int(1), x]);
+      }
+      ("root = [* item]\nitem = int / holder\nholder = [g]\ng = (int, ? item)\n".into(), Doc::Array(vec![Doc::Int(3), x]), "group-ref-in-array")
+    }
+    6 => {
+      let mut x = leaf(bad);
+      for _ in 0..d.min(32) {
+        x = Doc::Tag(99, Box::new(x));
+      }
+      ("root = #6.99(root) / int\n".into(), x, "tag")
+    }
+    7 => {
+      let mut x = leaf(bad);
+      for _ in 0..d {
+        x = Doc::Array(vec![x]);
+      }
+      ("root = wrap<root> / int\nwrap<T> = [T]\n".into(), x, "generic")
+    }
+    8 => {
+      let mut x = Doc::Null;
+      if bad {
+        x = t("x");
+      }
+      for _ in 0..d {
+        x = Doc::Array(vec![Doc::Map(vec![(t("x"), x)])]);
+      }
+      ("root = a\na = [* b] / nil\nb = { x: a }\n".into(), x, "mutual")
+    }
+    9 => {
+      let mut x = Doc::Null;
+      if bad {
+        x = Doc::Int(1);
+      }
+      for i in 0..d {
+        x = Doc::Array(vec![Doc::Int(i as i128), x]);
+      }
+      ("list = nil / [int, list]\n".into(), x, "cons-list")
+    }
+    10 => {
+      let mut x = Doc::Map(vec![(t("kind"), t("leaf")), (t("v"), leaf(bad))]);
+      for _ in 0..d {
+        x = Doc::Map(vec![(t("kind"), t("node")), (t("kids"), Doc::Array(vec![x.clone(), Doc::Map(vec![(t("kind"), t("leaf")), (t("v"), Doc::Int(1))])]))]);
+        if d > 10 {
+          // keep the size linear: only one child recurses
+          if let Doc::Map(m) = &mut x {
+            if let Doc::Array(k) = &mut m[1].1 {
+              k.truncate(1);
+            }
+          }
+        }
+      }
+      ("root = { kind: \"leaf\", v: int } / { kind: \"node\", kids: [* root] }\n".into(), x, "choice-of-maps")
+    }
+    _ => {
+      let mut x = leaf(bad);
+      for _ in 0..d {
+        x = Doc::Array(vec![t("s"), x]);
+      }
+      ("root = [* (tstr / inner)]\ninner = root / int\n".into(), x, "choice-in-group")
+    }
+  }
+}
